@@ -91,7 +91,7 @@ def run_script(params, tape, detail=False):
     cover_time = {}  # payload -> time a covering ack was delivered (first)
     peer_rx = [0]  # peer's own frame counter for piggy-backed DATA frames
     script_pos = [0]
-    error_codes = (0x51, 0x02, 0x80)
+    error_codes = (0x51, 0x00, 0x80, 0x02, 0x85)  # (0x00 is the falsy member of bellows' enumeration, 0x85 is not a named member)
 
     def next_reaction(frm, payload):
         k = attempt[payload]
@@ -137,7 +137,7 @@ def run_script(params, tape, detail=False):
         elif r == "N":
             rig.peer_send(R.f_nak(frm), at=at)
         elif r == "E":
-            rig.peer_send(R.f_error(error_codes[frm % 3]), at=at)
+            rig.peer_send(R.f_error(error_codes[(frm + nsend + (len(script) if script is not None else attempt.get(payload, 0))) % 5]), at=at)
         elif r == "R":
             rig.peer_send(R.f_rstack(R.RESET_SOFTWARE), at=at)
             peer_rx[0] = 0
